@@ -145,6 +145,17 @@ def labelled():
                "name from . where name = '" + 'x' * 120000 + "'", 'name from . where name = ' + 'y' * 100000, 'name from . where ' + 'not ' * 30000 + 'size > 1',
                'name, ' + '1 + ' * 20000 + '1 from . limit 1', 'name from . where size > 1 ' + 'and size > 1 ' * 10000):
         out.append(([qy], 'long-input', None))
+    # long unquoted words with multi-byte characters around the operator characters inside them (the word rules look ahead a fixed number of characters)
+    for head in ('2018', 'size', 'x'):
+        for opc in '-*+/%':
+            for fill in ('отчёт', '日本語', 'né', '🙂a'):
+                for pad in range(0, 4):
+                    for n in (8, 12, 20):
+                        word = head + opc + 'a' * pad + (fill + opc) * n + 'версия.docx'
+                        out.append((['name from . where name = ' + word], 'long-input', None))
+                        if pad == 0:
+                            out.append((['name, ' + word + ' from . limit 1'], 'long-input', None))
+                            out.append((['name from . order by ' + word + ' limit 1'], 'long-input', None))
     # chains inside brackets inside chains: every limit on its own is kept, the tree is as deep as their product
     def nest(term, op, levels, n):
         text = term
